@@ -99,10 +99,14 @@ def js_len(v):
 
 
 # ---- templates
-TVARS = {'x': 3, 'y': 'ab', 'z': True, 'n': 3000000000, 'w': 'é✓'}
-TEXPRS = [('x', 3), ('x + 1', 4), ('x * 2', 6), ('y', 'ab'), ('z', True), ('y + "c"', 'abc'), ('w', 'é✓'), ('x > 2', True), ('1 + 1', 2), ('"lit"', 'lit'), ('x - 3', 0), ('y.length', 2)]
+TVARS = {'x': 3, 'y': 'ab', 'z': True, 'n': 3000000000, 'w': 'é✓', 'arr': [1, 2, 3]}
+# (the last three have side effects on their own copy of the variables: every expression of a string is evaluated
+# independently, none sees what another one did)
+TEXPRS = [('x', 3), ('x + 1', 4), ('x * 2', 6), ('y', 'ab'), ('z', True), ('y + "c"', 'abc'), ('w', 'é✓'), ('x > 2', True), ('1 + 1', 2), ('"lit"', 'lit'), ('x - 3', 0), ('y.length', 2),
+          ('arr.shift()', 1), ('arr.length', 3), ('arr.push(9)', 4)]
 TEXPR_FN = {'x': lambda V: V['x'], 'x + 1': lambda V: V['x'] + 1, 'x * 2': lambda V: V['x'] * 2, 'y': lambda V: V['y'], 'z': lambda V: V['z'], 'y + "c"': lambda V: V['y'] + 'c', 'w': lambda V: V['w'],
-            'x > 2': lambda V: V['x'] > 2, '1 + 1': lambda V: 2, '"lit"': lambda V: 'lit', 'x - 3': lambda V: V['x'] - 3, 'y.length': lambda V: len(V['y'].encode('utf-16-le')) // 2}
+            'x > 2': lambda V: V['x'] > 2, '1 + 1': lambda V: 2, '"lit"': lambda V: 'lit', 'x - 3': lambda V: V['x'] - 3, 'y.length': lambda V: len(V['y'].encode('utf-16-le')) // 2,
+            'arr.shift()': lambda V: V['arr'][0], 'arr.length': lambda V: len(V['arr']), 'arr.push(9)': lambda V: len(V['arr']) + 1}
 
 
 def expect_under(s, typed, V):
@@ -156,6 +160,8 @@ class ScriptFamily:
     def gen(self, rng, idx, opts):
         if opts.get('sub') == 'template':
             return self.gen_tpl(rng)
+        if rng.random() < opts.get('secrets', 0.08):
+            return self.gen_secrets(rng, opts)
         v = gen_value(rng)
         lit = json.dumps(v, ensure_ascii=False)          # JSON text is a valid JS literal
         steps = [
@@ -191,6 +197,22 @@ class ScriptFamily:
                 sc['watchdog_ms'] = 60000
         nontriv = isinstance(v, (dict, list)) and len(v) > 0 or (isinstance(v, int) and abs(v) >= 2 ** 31) or isinstance(v, float) or (isinstance(v, str) and any(ord(c) > 127 or c in '"\\\n' for c in v))
         return {'scenarios': [sc], 'meta': {'v': v, 'cond': cond, 'sub': 'value', 'reload': reload_}, 'digest': digest([v, reload_, store]), 'nontrivial': bool(nontriv)}
+
+    def gen_secrets(self, rng, opts):
+        """the user variable `secrets` of a script is the `secrets` variable of ITS process: two processes of one engine
+        with different keys, each sees exactly its own"""
+        va, vb = [rng.choice(['t0k', 'é✓', 'x' * rng.randint(1, 5)]) + str(rng.randint(0, 999)) for _ in range(2)]
+        code = '$set("sa", typeof secrets.A === "undefined" ? "undef" : secrets.A); $set("sb", typeof secrets.B === "undefined" ? "undef" : secrets.B);'
+        wf = {'id': 'm1', 'inputs': {'secrets': {}, 'sa': None, 'sb': None}, 'outputs': {'sa': None, 'sb': None},
+              'steps': [{'id': 's1', 'acts': [{'id': 'a1', 'uses': 'acts.transform.code', 'params': code}, {'id': 't1', 'uses': MSG, 'key': 'tk', 'params': '{{ secrets.A }}|{{ secrets.B }}'}]}]}
+        order = rng.sample(['pa', 'pb'], 2) + (['pa'] if rng.random() < 0.5 else [])
+        ops = []
+        for i, p_ in enumerate(order):
+            ops += [{'op': 'start', 'mid': 'm1', 'vars': {'pid': f'{p_}{i}', 'secrets': {'A': va} if p_ == 'pa' else {'B': vb}}}, {'op': 'run'}]
+        ops.append({'op': 'snapshot', 'level': 'live'})
+        sc = {'id': '', 'family': 'script', 'sched': 'cur-secrets', 'runtime': {'flavor': 'current'}, 'engine': {'store': 'mem', 'keep_processes': True}, 'models': [json.dumps(wf, ensure_ascii=False)],
+              'responder': {'rules': []}, 'ops': ops}
+        return {'scenarios': [sc], 'meta': {'sub': 'secrets', 'va': va, 'vb': vb, 'order': order, 'v': None, 'cond': None}, 'digest': digest([va, vb, order]), 'nontrivial': True}
 
     def gen_tpl(self, rng):
         tpls = [gen_template(rng) for _ in range(rng.randint(1, 4))]
@@ -246,6 +268,24 @@ class ScriptFamily:
                     ok2 = (isinstance(got2, dict) and isinstance(got2.get('nested'), list) and len(got2['nested']) == 2 and same(got2['nested'][0], exp2) and same((got2['nested'][1] or {}).get('deep'), exp2)) if nested else (same(got2, exp2) and type(got2) == type(exp2))
                     if not ok2:
                         out.append(V('C14', 'template-result', f"second-pass:{'none' if n == 0 else 'sole-typed' if typed else 'in-text'}", f"second pass (x=7, y='é7'): params {s!r} evaluated to {got2!r}, expected {exp2!r}", scenario=sid))
+            return out
+        if m['sub'] == 'secrets':
+            for i, p_ in enumerate(m['order']):
+                pid = f'{p_}{i}'
+                want = (m['va'], 'undef') if p_ == 'pa' else ('undef', m['vb'])
+                cb = [e for e in h.cbs if e['what'] == 'complete' and e['pid'] == pid]
+                obs['c14.secrets-processes'] += 1
+                if not cb:
+                    out.append(V('C14', 'value-run-failed', 'secrets', f"process {pid} did not complete", scenario=sid))
+                    continue
+                o = cb[0].get('outputs') or {}
+                if (o.get('sa'), o.get('sb')) != want:
+                    out.append(V('C14', 'user-variable-of-another-process', 'script', f"process {pid} (started {i + 1}. of {len(m['order'])}) saw secrets.A / secrets.B = {(o.get('sa'), o.get('sb'))!r} in its script, its own secrets say {want!r}", scenario=sid))
+                d = [x for x in h.delivers if x['key'] == 'tk' and x['pid'] == pid]
+                wt = (m['va'] + '|null') if p_ == 'pa' else ('null|' + m['vb'])
+                gt = (d[0].get('inputs') or {}).get('params') if d else None
+                if d and gt not in (wt, wt.replace('null', 'undefined'), wt.replace('null', '')):
+                    out.append(V('C14', 'user-variable-of-another-process', 'template', f"process {pid}: template '{{{{ secrets.A }}}}|{{{{ secrets.B }}}}' gave {gt!r}, its own secrets give {wt!r}", scenario=sid))
             return out
         v = m['v']
         cb = [e for e in h.cbs if e['what'] == 'complete']
